@@ -243,10 +243,10 @@ def tx_template(ex, template, group):
             "segwit_iff_marker": tx.is_segwit == (len(stripped) != len(out))}
 
 
-@ob("C05", "tx_fields_roundtrip", quick=[dict(nin=1, nout=1, wit=1), dict(nin=2, nout=1, wit=0), dict(nin=1, nout=2, wit=1)],
-    thorough=[dict(nin=i, nout=o, wit=w) for i in (0, 1, 2, 3) for o in (0, 1, 2, 3) for w in (0, 1) if not (w and i == 0)],
+@ob("C05", "tx_fields_roundtrip", quick=[dict(nin=1, nout=1, wit=1), dict(nin=2, nout=1, wit=0), dict(nin=1, nout=2, wit=1), dict(nin=1, nout=1, wit=2), dict(nin=2, nout=1, wit=2)],
+    thorough=[dict(nin=i, nout=o, wit=w) for i in (0, 1, 2, 3) for o in (0, 1, 2, 3) for w in (0, 1, 2) if not (w and i == 0)],
     bound="transactions of the given shape: version, lock time, every prevout index, sequence, value symbolic over their full 32/64-bit ranges, "
-          "first byte of every script/witness element symbolic, lengths concrete; hash256 = uninterpreted function",
+          "first byte of every script/witness element symbolic, lengths concrete (wit=2: a witness stack of two empty items); hash256 = uninterpreted function",
     stubs=["sha256 (hence hash256) is an uninterpreted function: the id claims hold for every hash function"],
     functions=["btclib.tx.tx.Tx.serialize", "btclib.tx.tx.Tx.parse", "btclib.tx.tx.Tx._serialized_size"], timeout=900, weight=4)
 def tx_fields(ex, nin, nout, wit):
@@ -254,7 +254,10 @@ def tx_fields(ex, nin, nout, wit):
     lock = ex.int("lock", 0, 0xFFFFFFFF)
     vin = []
     for i in range(nin):
-        w = Witness([ex.bytes(f"w{i}a", 1) + b"\x01\x02", ex.bytes(f"w{i}b", 1)], check_validity=False) if wit and i == 0 else Witness()
+        if wit == 2 and i == 0:
+            w = Witness([b"", b""], check_validity=False)      # a witness of empty items only is still a witness (BIP144: the stack is non-empty)
+        else:
+            w = Witness([ex.bytes(f"w{i}a", 1) + b"\x01\x02", ex.bytes(f"w{i}b", 1)], check_validity=False) if wit and i == 0 else Witness()
         vin.append(TxIn(OutPoint(ex.bytes(f"txid{i}", 2) + bytes([i + 1]) * 30, ex.int(f"vout{i}", 0, 0xFFFFFFFF), check_validity=False),
                         ex.bytes(f"ss{i}", 1) + b"\x51" * i, ex.int(f"seq{i}", 0, 0xFFFFFFFF), w, check_validity=False))
     vout = [TxOut(ex.int(f"val{j}", -(1 << 63), (1 << 63) - 1), ex.bytes(f"spk{j}", 1) + bytes([0x14]) + bytes([7 + j]) * 20, check_validity=False)
@@ -277,7 +280,8 @@ def tx_fields(ex, nin, nout, wit):
               "weight": tx.weight == 3 * len(stripped) + len(full),
               "vsize": tx.vsize == (tx.weight + 3) // 4,
               "txid_is_hash_of_stripped": tx.id == _hashes.hash256(stripped)[::-1],
-              "wtxid_is_hash_of_full": tx.hash == _hashes.hash256(full)[::-1]}
+              "wtxid_is_hash_of_full": tx.hash == _hashes.hash256(full)[::-1],
+              "witness_is_serialized_iff_some_input_has_a_stack": (len(full) != len(stripped)) == bool(wit)}
     return claims
 
 
